@@ -4,6 +4,7 @@ CONSTANT F12Fixed = TRUE
 CONSTANT B256CmpFixed = TRUE
 CONSTANT ClsSel = {}
 CONSTANT TySel = {}
+CONSTANT Mode = "build"
 SPECIFICATION TraceSpec
 POSTCONDITION Accepted
 CHECK_DEADLOCK FALSE
